@@ -237,12 +237,10 @@ Proof.
   assert (Hk : side_eqb x s && keep (mkW 4294967295 0 2 []) = false).
   { unfold MuxView.keep. cbn. now rewrite !andb_false_r. }
   destruct (sb_send_quiet _ _ _ _ _ _ _ Es Hk) as [Hq1 Hf1].
-  destruct (rc2 =? 0).
-  - destruct (close_all y2 x) as [y3 e3] eqn:Eca. injection H as <- <- <- <-.
-    destruct (close_all_quiet _ _ _ _ Eca) as [Hq2 Hf2]. split.
-    + eapply quiet_trans; [exact Hq0|]. eapply quiet_trans; eauto.
-    + now rewrite ev_frames_app, Hf1, Hf2.
-  - destruct (rc2 =? 1); injection H as <- <- <- <-; (split; [eapply quiet_trans; eauto|exact Hf1]).
+  destruct (close_all y2 x) as [y3 e3] eqn:Eca.
+  destruct (close_all_quiet _ _ _ _ Eca) as [Hq2 Hf2].
+  destruct (rc2 =? 0); [|destruct (rc2 =? 1)]; injection H as <- <- <- <-;
+    (split; [eapply quiet_trans; [exact Hq0|]; eapply quiet_trans; eauto|now rewrite ev_frames_app, Hf1, Hf2]).
 Qed.
 
 Lemma sb_send_rc2_closed y x fr p y' evs rc :
